@@ -25,6 +25,7 @@ import (
 type bThread struct {
 	Ops   []aOp `json:"ops,omitempty"`   // client thread: requests issued one after the other
 	Sweep int   `json:"sweep,omitempty"` // sweeper thread: advance the clock by Sweep seconds and run both sweeps
+	Demote bool `json:"demote,omitempty"` // role-change thread: SLock.updateState(STATE_FOLLOWER), as a leader that loses leadership does (C10)
 }
 
 type bCase struct {
@@ -165,6 +166,9 @@ func bRun(c *bCase, pick func(n int) int) (info bInfo, viol *aViolation, hist st
 				}
 				s.events <- bEvent{idx, 1, ""}
 			}()
+			if th.Demote {
+				e.inst.slock.updateState(STATE_FOLLOWER)
+			}
 			if th.Sweep > 0 {
 				e.tick(aOp{K: "tick", N: th.Sweep})
 			}
@@ -176,6 +180,8 @@ func bRun(c *bCase, pick func(n int) int) (info bInfo, viol *aViolation, hist st
 	prev := bSnapAll(e)
 	step := 0
 	last := -1
+	var demSnap bSnap
+	demFirstReq := 1 << 30 // index of the first request sent after the role change had finished
 	for {
 		var runnable []int
 		for i := 0; i < n; i++ {
@@ -223,6 +229,22 @@ func bRun(c *bCase, pick func(n int) int) (info bInfo, viol *aViolation, hist st
 		}
 		info.segments++
 		cur := bSnapAll(e)
+		if demSnap != nil {
+			// C10: a node that is no longer the leader neither grants, queues nor releases anything in answer to a client
+			if d := bSnapDiff(demSnap, cur); d != "" {
+				h := e.history()
+				abandon = !bFinish(s)
+				return info, &aViolation{"C10", "after the node had left leadership its lock table changed in answer to a client request: " + d}, h, ""
+			}
+		} else {
+			for i, th := range c.Threads {
+				if th.Demote && s.done[i] {
+					demSnap = cur
+					demFirstReq = len(e.reqs)
+					e.logf("  --- role change finished: the node is a follower now")
+				}
+			}
+		}
 		if v := bTransition(e, prev, cur, &info); v != nil {
 			// let the other threads run to their end so that the instance can be closed, then report
 			h := e.history()
@@ -237,6 +259,16 @@ func bRun(c *bCase, pick func(n int) int) (info bInfo, viol *aViolation, hist st
 		}
 	}
 	vSetYieldExtra(func(int) {})
+	if demSnap != nil {
+		// a follower cannot be drained by client requests; what C10 asks for was checked after every segment, and no
+		// request sent after the role change may have been answered SUCCED
+		for _, r := range e.reqs {
+			if r.Idx >= demFirstReq && r.Terminal >= 0 && r.Replies[r.Terminal].Result == rSUCCED {
+				return info, &aViolation{"C10", fmt.Sprintf("request #%d, sent after the node had left leadership, was answered SUCCED", r.Idx)}, e.history(), ""
+			}
+		}
+		return info, nil, "", ""
+	}
 	// ---- quiescence: end-of-schedule checks, then drain from the snapshot
 	if v := bQuiescent(e, prev); v != nil {
 		return info, v, e.history(), ""
@@ -284,6 +316,41 @@ func bFinish(s *bSched) bool {
 }
 
 type bSnap map[string]*aSnapKey
+
+// bSnapDiff: difference of two lock tables in holders (LockId, depth) and queued requests; "" if none.
+func bSnapDiff(a, b bSnap) string {
+	keys := map[string]bool{}
+	for k := range a {
+		keys[k] = true
+	}
+	for k := range b {
+		keys[k] = true
+	}
+	ids := make([]string, 0, len(keys))
+	for k := range keys {
+		ids = append(ids, k)
+	}
+	sort.Strings(ids)
+	sig := func(k *aSnapKey) string {
+		if k == nil {
+			return "-"
+		}
+		var sb strings.Builder
+		for _, h := range k.Holders {
+			fmt.Fprintf(&sb, "h%x/%d ", h.Id[:3], h.Depth)
+		}
+		for _, w := range k.Waiters {
+			fmt.Fprintf(&sb, "w%x ", w.Id[:3])
+		}
+		return sb.String()
+	}
+	for _, id := range ids {
+		if x, y := sig(a[id]), sig(b[id]); x != y && !(x == "" && y == "-") && !(x == "-" && y == "") {
+			return fmt.Sprintf("key %s: [%s] -> [%s]", id, x, y)
+		}
+	}
+	return ""
+}
 
 func bSnapAll(e *aEnv) bSnap {
 	out := bSnap{}
@@ -621,7 +688,42 @@ func bProp(test, prop string) func(t *rapid.T) {
 			c.Prefix.Ops = append(c.Prefix.Ops, aOp{K: "tick", N: rapid.IntRange(1, 2).Draw(t, "prefixTickN")})
 		}
 		nth := rapid.IntRange(2, 5).Draw(t, "threads")
-		if pct(t, "recycleScenario") < 10 || os.Getenv("VERIF_B_SCENARIO") == "recycle" {
+		if prop == "C10" {
+			// a leader loses leadership (SLock.updateState as ReplicationManager.SwitchToFollower does) while client requests
+			// are in flight: one of them is held back in front of the shard mutex across the role change
+			nth = 0
+			c.Prefix.Ops = nil
+			c.Prefix.Conc = 1 // updateState takes every shard mutex in turn; with one shard it never parks while holding one
+			var held []aOp
+			for i := rapid.IntRange(1, 3).Draw(t, "demHolds"); i > 0; i-- {
+				fresh++
+				op := aOp{K: "lock", C: 0, Key: rapid.IntRange(0, 1).Draw(t, "demKey"), Id: 200 + fresh, Cnt: rapid.SampledFrom([]int{1, 2, 0xffff}).Draw(t, "demCount"), Rc: rapid.IntRange(0, 2).Draw(t, "demRcount"), E: 30}
+				c.Prefix.Ops = append(c.Prefix.Ops, op)
+				held = append(held, op)
+			}
+			req := func(label string, client int) aOp {
+				h := held[rapid.IntRange(0, len(held)-1).Draw(t, label+"H")]
+				switch pct(t, label+"Kind") % 5 {
+				case 0:
+					return aOp{K: "unlock", C: client, Key: h.Key, Id: h.Id}
+				case 1:
+					return aOp{K: "unlock", C: client, Key: h.Key, Id: h.Id + 5000, F: ufFIRST}
+				case 2:
+					return aOp{K: "lock", C: client, Key: h.Key, Id: h.Id, Cnt: h.Cnt, Rc: 2, E: 30} // re-entrant
+				case 3:
+					return aOp{K: "lock", C: client, Key: h.Key, Id: h.Id + 6000, Cnt: 0xffff, E: 30} // shares the key
+				}
+				return aOp{K: "lock", C: client, Key: 2 + rapid.IntRange(0, 1).Draw(t, label+"Free"), Id: h.Id + 7000, Cnt: 0, E: 30}
+			}
+			c.Threads = []bThread{{Ops: []aOp{req("demStalled", 1)}}, {Demote: true}}
+			for i := rapid.IntRange(0, 2).Draw(t, "demOthers"); i > 0; i-- {
+				c.Threads = append(c.Threads, bThread{Ops: []aOp{req(fmt.Sprintf("demOther%d", i), 1+i)}})
+			}
+			if pct(t, "demStall") < 75 {
+				c.Stall = 1
+			}
+		}
+		if prop != "C10" && (pct(t, "recycleScenario") < 10 || os.Getenv("VERIF_B_SCENARIO") == "recycle") {
 			// key-manager recycling under a stalled request: a request for key 0 is between its manager look-up and
 			// the shard mutex while key 0's last hold ends, a sweep recycles its manager and key 1 (unused so far)
 			// gets that manager; the stalled request must then start over, not act on key 1's state
@@ -746,8 +848,10 @@ func TestC03_EngineB(t *testing.T) { rapid.Check(t, bProp("TestC03_EngineB", "C0
 func TestC04_EngineB(t *testing.T) { rapid.Check(t, bProp("TestC04_EngineB", "C04")) }
 func TestC17_EngineB(t *testing.T) { rapid.Check(t, bProp("TestC17_EngineB", "C17")) }
 func TestCAll_EngineB(t *testing.T) { rapid.Check(t, bProp("TestCAll_EngineB", "*")) }
+func TestC10_EngineB(t *testing.T)  { rapid.Check(t, bProp("TestC10_EngineB", "C10")) }
 
 func TestC01_ReplayB(t *testing.T) { bReplayTest(t, "C01") }
+func TestC10_ReplayB(t *testing.T) { bReplayTest(t, "C10") }
 func TestC03_ReplayB(t *testing.T) { bReplayTest(t, "C03") }
 func TestC04_ReplayB(t *testing.T) { bReplayTest(t, "C04") }
 func TestC17_ReplayB(t *testing.T) { bReplayTest(t, "C17") }
